@@ -526,12 +526,12 @@ example :
     Pending or Running — keeps it, and so does an event of any other job. -/
 theorem passed_mark_kept_while_live (st : ArbSt) (e : HEvent) (j : Nat)
     (h : match e with
-         | .create _ => True
+         | .create _ _ => True
          | .update jid ph => jid = j → terminalPhase ph = false
          | .delete jid => jid ≠ j) :
     (handle st e).arbitrated.contains j = st.arbitrated.contains j := by
   cases e with
-  | create jid => simp only [handle]; split <;> rfl
+  | create jid ph => simp only [handle]; split <;> (try split) <;> rfl
   | update jid ph =>
     simp only [handle]
     split
@@ -544,6 +544,56 @@ theorem passed_mark_kept_while_live (st : ArbSt) (e : HEvent) (j : Nat)
     have : (j != jid) = true := by simpa using (fun hj : j = jid => h hj.symm)
     simp only [handle]
     rw [dropMark_contains, this, Bool.and_true]
+
+/-- **finished_job_not_taken_in**: a Create event for a job whose phase is Succeeded / Failed / Aborted changes nothing, so
+    after a restart exactly the unfinished jobs wait for arbitration again (and no finished job can be failed or passed by a round) -/
+theorem finished_job_not_taken_in (st : ArbSt) (jid ph : Nat) (h : terminalPhase ph = true) :
+    handle st (.create jid ph) = st := by
+  simp only [handle, h, if_true]
+
+theorem handle_create_effect (s : ArbSt) (j ph x : Nat) :
+    (handle s (.create j ph)).waiting.contains x = (s.waiting.contains x || (j == x && !terminalPhase ph)) ∧
+      (handle s (.create j ph)).arbitrated = s.arbitrated := by
+  simp only [handle]
+  by_cases ht : terminalPhase ph = true
+  · simp [ht]
+  · have ht' : terminalPhase ph = false := by simpa using ht
+    simp only [ht', Bool.false_eq_true, if_false, Bool.not_false, Bool.and_true]
+    by_cases hc : s.waiting.contains j = true
+    · simp only [hc, if_true, and_true]
+      by_cases hj : j = x
+      · subst hj; simpa using hc
+      · have : (j == x) = false := by simpa using hj
+        simp [this]
+    · have hc' : s.waiting.contains j = false := by simpa using hc
+      simp only [hc', Bool.false_eq_true, if_false, and_true, List.contains_cons]
+      by_cases hj : j = x
+      · subst hj; simp
+      · have h1 : (j == x) = false := by simpa using hj
+        have h2 : (x == j) = false := by simpa using (fun h : x = j => hj h.symm)
+        simp [h1, h2]
+
+theorem restart_fold (l : List JobA) (s0 : ArbSt) (jid : Nat) :
+    (l.foldr (fun j s => handle s (.create j.id j.phase)) s0).waiting.contains jid =
+        (l.any (fun j => j.id == jid && !terminalPhase j.phase) || s0.waiting.contains jid) ∧
+      (l.foldr (fun j s => handle s (.create j.id j.phase)) s0).arbitrated = s0.arbitrated := by
+  induction l with
+  | nil => simp
+  | cons j r ih =>
+    simp only [List.foldr_cons, List.any_cons]
+    obtain ⟨h1, h2⟩ := handle_create_effect (r.foldr (fun j s => handle s (.create j.id j.phase)) s0) j.id j.phase jid
+    rw [h1, h2, ih.1, ih.2]
+    refine ⟨?_, rfl⟩
+    cases (j.id == jid && !terminalPhase j.phase) <;> cases (r.any fun j => j.id == jid && !terminalPhase j.phase) <;>
+      cases s0.waiting.contains jid <;> rfl
+
+/-- **restart_waiting**: after a restart exactly the unfinished jobs of the API wait for arbitration, and no job is marked passed -/
+theorem restart_waiting (st : ArbSt) (jid : Nat) :
+    (restart st).waiting.contains jid = st.jobs.any (fun j => j.id == jid && !terminalPhase j.phase) ∧ (restart st).arbitrated = [] := by
+  have h := restart_fold st.jobs { st with arbitrated := [], waiting := [] } jid
+  simp only [restart]
+  refine ⟨?_, h.2⟩
+  rw [h.1]; simp
 
 /-- the phases that keep the mark are exactly those that are not Succeeded (3), Failed (4), Aborted (5): "" (0), Pending (1),
     Running (2) and any value the API does not define -/
